@@ -16,7 +16,7 @@ func init() {
 	register(&Property{
 		ID:    "C15",
 		Title: "Built-in operators decide exactly their documented predicates",
-		Explanation: "Decides structural agreement between operators, not the predicates themselves: R1 capture bound agreement: every loop that stores captures stops after index 9 (the bound constant extracted from each loop's exit test is 10 everywhere), so TX.0-9 are filled alike by @rx, binary @rx, @pm and @validateNid; " +
+		Explanation: "Decides structural agreement between operators, not the predicates themselves: R1 capture bound agreement: every loop that stores captures stores a value for every index it visits (a group that did not participate is stored as empty, never skipped) and stops after index 9 (the bound constant extracted from each loop's exit test is 10 everywhere), so TX.0-9 are filled alike by @rx, binary @rx, @pm and @validateNid; " +
 			"R2 macro re-expansion: every operator holding a macro argument expands it with the transaction inside Evaluate and never at construction, and keeps no expanded copy; R3 single negation point (C01.R3 re-applied); R4 look-ahead and fixed-position reads in the operators are length-guarded (A9 shapes); " +
 			"R5 the @pm family builds its matcher and its minimum-length shortcut from the same phrase list, the matcher is ASCII-case-insensitive, and the minimum-length test can only reject; R6 @ipMatch gives a bare address the host mask of its family: /32 only when the entry contains no ':' (path query with infeasible-branch pruning), /128 only when it does.",
 		NotDecided: []string{
